@@ -63,6 +63,17 @@ PROPS = {
         assumptions=["theorems cover the closed-form paths of SO3, SE2 (quick) and SE3 (thorough): inverse relation, right-Jacobian by definition, left variant; Galilei/SE_K_3, the series paths, the series identity sum (-1)^k ad^k/(k+1)!, dr_action and dr_rminus* are decided by the oracle harness",
                      "rounding is not modelled"],
     ),
+    "C11": dict(
+        tracer_units=["CS", "SO3", "SE2"],
+        coq_targets=["Props/Properties_C11.vo"],
+        props_files=["Props/Properties_C11.v"],
+        cone=["Proofs/C11_*.v", "Props/Properties_C11.v"],
+        harnesses=[dict(name="h_c11")],
+        trusted_base=TB_COMMON + ["Coquelicot's is_derive / auto_derive",
+                                  "harness/h_c11.cpp: long-double oracle g(u) = prod_j expm(B~_j(u) hat(v_j)), body velocity/acceleration/jerk and the Jacobians by Richardson-extrapolated central differences"],
+        assumptions=["theorems: vector spaces K=1..4 for every basis matrix and every u (value, velocity, acceleration, jerk as successive derivatives); value = product of the library's own exp/composition (themselves C01/C02) for SO3 K=1 and SE2 K=2 incl. the basis-scalar evaluation; derivative outputs and Jacobians on non-commutative groups, K up to 6, cspline_eval_gs and dg_dgs are decided by the oracle harness",
+                     "rounding is not modelled"],
+    ),
     "C05": dict(
         tracer_units=["SO3", "SE2"],
         coq_targets=["Props/Properties_C05.vo"],
@@ -86,6 +97,12 @@ PROPS = {
 }
 
 MANIFEST_TEXT = {
+    "C11": dict(
+        technique="Coq proof over the regenerated model of cspline_eval_vs (symbolic control differences, symbolic basis matrix, symbolic u): polynomial identities and Coquelicot derivatives for vector spaces; path-matching decomposition of the value into the library's traced exp/composition; translator validation; long-double spline oracle harness",
+        text="Traced with symbolic basis matrix (so every basis) and symbolic u: for vector-space splines of degree K=1..4 the value is sum_j B~_j(u) v_j with B~_j(u) = sum_r u^r B[r][j], and the velocity, acceleration and jerk outputs are the first, second and third derivatives with respect to u (machine-checked with is_derive for every u); the scalars B~_j(u) the code feeds to exp are proved to be those polynomials; for SO3 (K=1) and SE2 (K=2) the value is proved, path by path (infeasible paths discharged), to be the composition of the library's own traced exp(B~_j(u) v_j) - which C01/C02 prove to be the matrix product / exponential. Non-commutative derivative outputs, K up to 6, cspline_eval_gs and the Jacobians dg_dvs / dvel_dvs / dacc_dvs / dg_dgs / dvel_dgs are checked against an independent long-double oracle for SO3, SE2, SE3, SO2, Bernstein and B-spline bases, u incl. 0, 1, 2^-k.",
+        note="Trusted: Coq kernel, Coquelicot; translator (validated each run); rounding not modelled; the acceleration/jerk recursions on non-commutative groups are oracle-checked only.",
+        design_ref="DESIGN.md section 5 C11",
+    ),
     "C04": dict(
         technique="Coq proof over the regenerated model: Coquelicot auto_derive of the (proved) exponential flow w.r.t. every tangent coordinate equals flow * hat(column of the traced dr_exp) - the defining relation of the right Jacobian; field proofs that the traced dr_expinv is its inverse and dl_exp = Ad(exp) dr_exp; translator validation; long-double integral oracle harness",
         text="For SO3, SE2 (and SE3 in the thorough tier) and every tangent vector on the closed-form side of the switch: machine-checked that d/da_k exp(a) = exp(a) hat(dr_exp(a) e_k) entry by entry (exp(a) being the flow that C02 proves equal to the traced exp and to be the matrix exponential), that the traced dr_expinv is the two-sided matrix inverse of the traced dr_exp (sin theta <> 0), and that dl_exp(a) = Ad(exp a) dr_exp(a) across both sign-canonicalisation outcomes. The regenerated model makes any changed coefficient or sign in calc_S1/cos_2/sin_3/calculate_q break an obligation. All groups, float/double, the series branches, dr_action, dr_rminus and dr_rminus_squarednorm are checked against an independent long-double oracle Jr(a)=int_0^1 expm(-s ad a) ds on stratified inputs.",
